@@ -299,7 +299,7 @@ pub fn def(tier: Tier) -> PropertyDef {
 	PropertyDef {
 		id: "C13",
 		level: "exploration",
-		rule: "For each of the 44 method kinds + 15 MA kinds: generated valid parameters and streams, snapshot after k steps (k biased to 0..2n+2 so that every ring phase of short windows occurs, and uniform over the stream), serde_json (float_roundtrip) text -> restored instance: re-serializes identically, returns bit-identical outputs and peeks on the continuation, equal final state. The same for 36 indicator instances (Example's instance is not serializable) and all 37 configurations. All 513 Actions and 200 candles round-trip. Adversarial Window<u32> JSON (buffer lengths 0..300, index of any integer/float/string/null/missing, duplicate, unknown and reordered fields) and SMM JSON: Err, or Ok equal to the model rotation; valid data must be accepted; never a panic. Non-trivial = snapshot at a ring phase != 0 with a continuation whose output changes; distinct by hash.",
+		rule: "(Indicator snapshots are also taken deep inside long one-sided trend streams, <= 2000 bars / thorough 8000, sub-checks trend_indicator_*.) For each of the 44 method kinds + 15 MA kinds: generated valid parameters and streams, snapshot after k steps (k biased to 0..2n+2 so that every ring phase of short windows occurs, and uniform over the stream), serde_json (float_roundtrip) text -> restored instance: re-serializes identically, returns bit-identical outputs and peeks on the continuation, equal final state. The same for 36 indicator instances (Example's instance is not serializable) and all 37 configurations. All 513 Actions and 200 candles round-trip. Adversarial Window<u32> JSON (buffer lengths 0..300, index of any integer/float/string/null/missing, duplicate, unknown and reordered fields) and SMM JSON: Err, or Ok equal to the model rotation; valid data must be accepted; never a panic. Non-trivial = snapshot at a ring phase != 0 with a continuation whose output changes; distinct by hash.",
 		assumptions: vec!["snapshots whose JSON contains a non-finite float (written as null) are outside the format's domain: skipped and counted".into()],
 		exhaustive: false,
 		checks,
